@@ -1,0 +1,32 @@
+//go:build verif
+
+package services
+
+import (
+	"context"
+
+	"sigs.k8s.io/controller-runtime/pkg/client"
+
+	"github.com/jcmoraisjr/haproxy-ingress/pkg/acme"
+	"github.com/jcmoraisjr/haproxy-ingress/pkg/controller/config"
+	convtypes "github.com/jcmoraisjr/haproxy-ingress/pkg/converters/types"
+)
+
+// VerifCache is the real cache facade, as seen by the converters, the watchers and acme.
+type VerifCache interface {
+	convtypes.Cache
+	IsValidResource
+	acme.Cache
+}
+
+// VerifNewCache builds the real cache facade over any controller-runtime client.
+// It also creates the fake (default) certificate and CA, the same way Services.setup does.
+func VerifNewCache(ctx context.Context, cli client.Client, cfg *config.Config, tracker convtypes.Tracker, dynconfig *convtypes.DynamicConfig) (cache VerifCache, fakeCrt, fakeCA convtypes.CrtFile, err error) {
+	sslCerts := CreateSSLCerts(cfg)
+	fakeCrt, fakeCA, err = sslCerts.createFakeCertAndCA()
+	if err != nil {
+		return nil, fakeCrt, fakeCA, err
+	}
+	status := func(client.Object) {}
+	return createCacheFacade(ctx, cli, cfg, tracker, sslCerts, dynconfig, status), fakeCrt, fakeCA, nil
+}
